@@ -594,3 +594,134 @@ class ShutdownStall(Monitor):
                     'prerequisites satisfied, not held, within the runahead'
                     ' limit: it is never submitted'))
         return out
+
+
+# ---------------------------------------------------------------------------
+def _proxy_of_state(w: World, state):
+    if not w.running and getattr(w.schd, 'pool', None) is None:
+        return None
+    for t in w.schd.pool.get_tasks():
+        if t.state is state:
+            return t
+    return None
+
+
+def _ids(kwargs, key='tasks'):
+    out = []
+    for tid in kwargs.get(key, []) or []:
+        parts = tid.split('/')
+        if len(parts) >= 2:
+            out.append((parts[1].split(':')[0], parts[0]))
+    return out
+
+
+class Holds(Monitor):
+    """C06: held tasks never enter preparation; holds apply to future
+    instances; held set and hold point survive restart.
+
+    Reference (from the statement): H = explicitly held instances + every
+    instance that was beyond the hold point when the point was set or when
+    it entered the pool; release removes; release_hold_point clears all."""
+    name = 'holds'
+    prep_events = 0
+
+    def __init__(self):
+        self.bad: List[dict] = []
+        self.H: Set[Tuple[str, str]] = set()      # (name, point)
+        self.HP: Optional[int] = None
+        self.manual: Set[Tuple[str, str]] = set()
+
+    def key(self):
+        return (tuple(sorted(self.H)), self.HP, tuple(sorted(self.manual)))
+
+    def on_event(self, kind: str, data: dict) -> None:
+        w = self.w
+        if kind == 'command':
+            ok = bool(data['result'][0]) if data.get('result') else False
+            if not ok:
+                return
+            name, kw = data['name'], data['kwargs']
+            self.pending_cmd = (name, kw)   # takes effect when processed
+        elif kind == 'cmd_processed':
+            self._apply_cmd(w)
+        elif kind == 'add':
+            it = data['itask']
+            ident = (it.tdef.name, str(it.point))
+            if self.HP is not None and int(str(it.point)) > self.HP:
+                self.H.add(ident)
+        elif kind == 'remove':
+            it = data['itask']
+            self.H.discard((it.tdef.name, str(it.point)))
+            self.manual.discard((it.tdef.name, str(it.point)))
+        elif kind == 'reset':
+            if data['after'][0] == 'preparing' and \
+                    data['before'][0] != 'preparing':
+                Holds.prep_events += 1
+                it = _proxy_of_state(w, data['state'])
+                ident = (it.tdef.name, str(it.point)) if it else None
+                if ident in self.manual:
+                    return
+                if data['before'][1]:
+                    self.bad.append(self.viol(
+                        'held-task-prepared',
+                        f'{ident}: a held task entered job preparation'))
+                elif ident is not None and ident in self.H:
+                    self.bad.append(self.viol(
+                        'reference-held-task-prepared',
+                        f'{ident} should be held (hold set {sorted(self.H)},'
+                        f' hold point {self.HP}) but entered preparation'))
+
+    def _apply_cmd(self, w: World) -> None:
+        """Commands are queued: apply to the reference once the scheduler
+        has processed its command queue (end of the same iteration)."""
+        cmd = getattr(self, 'pending_cmd', None)
+        if cmd is None:
+            return
+        self.pending_cmd = None
+        name, kw = cmd
+        if name == 'hold':
+            self.H.update(_ids(kw))
+        elif name == 'release':
+            for i in _ids(kw):
+                self.H.discard(i)
+        elif name == 'set_hold_point':
+            self.HP = int(kw['point'])
+            if w.running:
+                for it in w.schd.pool.get_tasks():
+                    if int(str(it.point)) > self.HP:
+                        self.H.add((it.tdef.name, str(it.point)))
+        elif name == 'release_hold_point':
+            self.HP = None
+            self.H.clear()
+        elif name == 'force_trigger_tasks':
+            self.manual.update(_ids(kw))
+
+    def after(self, w: World, ev: tuple) -> List[dict]:
+        out, self.bad = self.bad, []
+        if not w.running:
+            self.pending_cmd = None   # a queued command dies with the process
+            return out
+        pool = w.schd.pool
+        got_h = {(n, str(p)) for n, p in pool.tasks_to_hold}
+        if got_h != self.H:
+            out.append(self.viol(
+                'held-set-differs',
+                f'scheduler holds {sorted(got_h)} but the reference held set'
+                f' is {sorted(self.H)} (after {ev[0]})'))
+        got_hp = None if pool.hold_point is None else int(str(
+            pool.hold_point))
+        if got_hp != self.HP:
+            out.append(self.viol(
+                'hold-point-differs',
+                f'scheduler hold point {got_hp} != reference {self.HP} '
+                f'(after {ev[0]})'))
+        for it in pool.get_tasks():
+            ident = (it.tdef.name, str(it.point))
+            if ident in self.manual:
+                continue
+            if it.state.is_held != (ident in self.H):
+                out.append(self.viol(
+                    'proxy-held-flag-differs',
+                    f'{it.identity}: is_held={it.state.is_held} but '
+                    f'reference says {ident in self.H} (after {ev[0]})'))
+        return out
